@@ -148,6 +148,11 @@ func c14Ops(rng *rand.Rand, nsvc int, empty bool) []c14Op {
 		}},
 		{"WithServicesEnabled", func(p *types.Project) (*types.Project, error) { return p.WithServicesEnabled(pick()...) }},
 		{"WithServicesDisabled", func(p *types.Project) (*types.Project, error) { return p.WithServicesDisabled(pick()...), nil }},
+		// services that are already disabled, and a name the project does not have: both are left as they are
+		{"WithServicesDisabled(again)", func(p *types.Project) (*types.Project, error) {
+			names := pick()
+			return p.WithServicesDisabled(names...).WithServicesDisabled(append(append([]string{}, names...), "ghost")...), nil
+		}},
 		{"WithSelectedServices", func(p *types.Project) (*types.Project, error) {
 			names := pick()
 			opt := []types.DependencyOption{types.IncludeDependencies, types.IncludeDependents, types.IgnoreDependencies}[rng.Intn(3)]
@@ -322,7 +327,7 @@ func C14(c *core.Ctx) {
 			}
 			clean, _ := opB.Fn(cur)
 			after := proj.Dump(cur)
-			ev := c14Event{Op: strings.TrimSuffix(op.Name, "(own)"), Before: core.HashStr(before), After: core.HashStr(after), History: append(append([]string{}, hist...), op.Name)}
+			ev := c14Event{Op: strings.TrimSuffix(strings.TrimSuffix(op.Name, "(own)"), "(again)"), Before: core.HashStr(before), After: core.HashStr(after), History: append(append([]string{}, hist...), op.Name)}
 			ev.Shared = sharedObjects(cur, victim)
 			ev.TopDiff, ev.SvcDiff = topAndSvcDiff(cur, victim)
 			ev.Leaks = []string{}
